@@ -56,6 +56,17 @@ def exotic_family():
             mid = ('m', ('n', 3, [('p', 2, ('n', 1, [])), t3]))
             return c02.ev(('m', ('n', 0, [('p', 1, ('n', 2, [])), mid])))
         out.append((f'exotic3:{"".join(map(str, states))}', mk3))
+    # an exotic cell and an ordinary cell holding exactly the same bits in one bag, in both orders
+    lib = RC.library(bytes(range(32)))
+    out.append(('twin:lib:exotic-first', lambda: RC.RCell('1', (lib, RC.RCell(lib.bits)))))
+    out.append(('twin:lib:ordinary-first', lambda: RC.RCell('1', (RC.RCell(lib.bits), lib, RC.RCell('0')))))
+
+    def twin_pruned(exotic_first):
+        pr = RC.prune(RC.RCell('1010', (RC.RCell('1'),)), 1)
+        tw = RC.RCell(pr.bits)
+        return RC.mproof(RC.RCell('01', (pr, tw) if exotic_first else (tw, pr)))
+    out.append(('twin:pruned:exotic-first', lambda: twin_pruned(True)))
+    out.append(('twin:pruned:ordinary-first', lambda: twin_pruned(False)))
     out.append(('update', lambda: c02.ev(('u', c02.shape_term(((1, 2), (), ()), (0, 1, 0)), c02.shape_term(((1, 2), (), ()), (0, 0, 1), base=4)))))
     out.append(('library', lambda: RC.RCell('1', (RC.library(bytes(range(32))), RC.RCell('0')))))
     out.append(('pruned-root', lambda: RC.pruned_raw(5, [bytes([7]) * 32, bytes([9]) * 32], [3, 4])))
